@@ -16,13 +16,6 @@ Lemma vadd_length u v : length u = length v -> length (vadd u v) = length u.
 Proof. intros E. unfold vadd. rewrite map2_length, E. apply Nat.min_id. Qed.
 Lemma vscal_length a u : length (vscal a u) = length u.
 Proof. apply map_length. Qed.
-Lemma map2_nth {A B C} (f : A -> B -> C) a b da db dc i : (i < length a)%nat -> (i < length b)%nat ->
-  nth i (map2 f a b) dc = f (nth i a da) (nth i b db).
-Proof. intros Ha Hb. unfold map2.
-  rewrite (nth_indep _ dc (f da db)) by (rewrite map_length, combine_length; lia).
-  change (f da db) with ((fun p => f (fst p) (snd p)) (da, db)). rewrite map_nth, combine_nth.
-  - reflexivity.
-  - revert b i Ha Hb. induction a; intros b i Ha Hb. Abort.
 Lemma map2_cons {A B C} (f : A -> B -> C) a l b m : map2 f (a :: l) (b :: m) = f a b :: map2 f l m.
 Proof. reflexivity. Qed.
 Lemma map2_nth {A B C} (f : A -> B -> C) a b da db dc i : (i < length a)%nat -> (i < length b)%nat ->
